@@ -510,6 +510,7 @@ class Cfg:
         self.rich_defaults = True
         self.digit_names = True
         self.unique_names = False
+        self.c02_safe = False        # stay inside the guard of C02_inst_eq_subst_partial (see Props/C02.lean)
         self.__dict__.update(kw)
 
 
@@ -519,6 +520,8 @@ class Gen:
         self.cfg = cfg or Cfg()
         self.counter = 0
         self.in_class = False
+        self.nest = 0                # template-argument nesting depth of the type being generated
+        self.noscope = set()         # template parameters that must not be used as `T::X` (templated instantiations)
 
     # --- names
     def uniq(self, base):
@@ -540,13 +543,20 @@ class Gen:
     # --- types
     def typename_parts(self, tparams=()):
         r = self.rng.random()
+        safe = self.cfg.c02_safe
+        if safe and self.nest > 1:
+            tparams = ()
         if tparams and r < 0.35:
             return [], self.rng.choice(tparams)
         if tparams and r < 0.42:
-            return [self.rng.choice(tparams)], self.rng.choice(["Value", "Type", "Jacobian"])
-        if self.cfg.allow_This and self.in_class and r < 0.47:
+            if not safe:
+                return [self.rng.choice(tparams)], self.rng.choice(["Value", "Type", "Jacobian"])
+            ok = [t for t in tparams if t not in self.noscope]
+            if ok and self.nest == 0:
+                return [self.rng.choice(ok)], self.rng.choice(["value_type", "iterator", "scalar"])
+        if self.cfg.allow_This and self.in_class and r < 0.47 and (not safe or self.nest == 0):
             return [], "This"
-        if self.cfg.allow_This and self.in_class and r < 0.50:
+        if self.cfg.allow_This and self.in_class and r < 0.50 and not safe:
             return ["This"], self.rng.choice(["Sub", "Value"])
         ns = [self.nsname() for _ in range(self.rng.choice([0, 0, 0, 1, 1, 2]))]
         return ns, self.cname()
@@ -571,7 +581,11 @@ class Gen:
                 if rng.random() < 0.3:
                     ns, name = ["std"], rng.choice(["vector", "map", "shared_ptr", "optional"])
             n = rng.choice([1, 1, 2, 3])
-            params = [self.gen_ty(depth - 1, tparams) for _ in range(n)]
+            self.nest += 1
+            try:
+                params = [self.gen_ty(depth - 1, tparams) for _ in range(n)]
+            finally:
+                self.nest -= 1
             if self.cfg.digit_names and rng.random() < 0.15:
                 params[rng.randrange(n)] = Ty([], str(rng.choice([1, 2, 3, 6, 12, 100])), None, False, '', False)
             return Ty(ns, name, params, const, suffix, False)
@@ -649,6 +663,10 @@ class Gen:
         out = []
         for nm in names:
             insts = [self.gen_inst() for _ in range(rng.randint(1, 3))] if (with_lists and rng.random() < 0.8) else []
+            if any(i.insts for i in insts) or not insts:
+                self.noscope.add(nm)
+            else:
+                self.noscope.discard(nm)
             out.append(TParam(nm, insts))
         return out
 
@@ -829,7 +847,7 @@ def gen_module_inst(g: Gen, n_typedefs=None, p_bad_arity=0.03, p_missing=0.03):
             n = n + 1
         if rng.random() < p_missing:
             name = name + "Missing"
-        tn = TN(list(path), name, [g.gen_inst(1) for _ in range(n)])
+        tn = TN(list(path), name, [g.gen_inst(0 if g.cfg.c02_safe else 1) for _ in range(n)])
         g.counter += 1
         d = Decl('typedef', tn=tn, new_name="%sTd%d" % (name, g.counter))
         _, content = rng.choice(spaces)
